@@ -23,6 +23,10 @@ def main():
     for sid in ids:
         sd = os.path.join(VERIF, "seeded", sid)
         meta = json.load(open(os.path.join(sd, "meta.json")))
+        if meta.get("superseded") and not sys.argv[1:]:
+            print(f"{sid}: SUPERSEDED (skipped)")
+            results.pop(sid, None)
+            continue
         prop = meta.get("property") or sid.split("-")[0]
         d = tempfile.mkdtemp(prefix="pyvc_seed_")
         t = time.time()
